@@ -157,7 +157,7 @@ def run(tier, seed):
     bdir = build.build("asan")
     chk = core.Check(PID, tier, seed)
     rd = core.record_dir(PID) if tier == "thorough" else None
-    sh = core.parallel(shard_fn, seed=seed, tier=tier, exe=bdir + "/jcdrv", ntexts=16000 if tier == "quick" else 100000, ntrees=8000 if tier == "quick" else 100000)
+    sh = core.parallel(shard_fn, seed=seed, tier=tier, exe=bdir + "/jcdrv", ntexts=64000 if tier == "quick" else 800000, ntrees=32000 if tier == "quick" else 600000)
     chk.absorb(sh)
     if rd:
         os.environ.pop("VF_RECORD_DIR", None)
